@@ -19,9 +19,29 @@ def run(mod, tier, all_violations=False, t0=None, extra=None):
         mine.extend(pv)
         extra_cov["equality_pairs_compared"] = npairs
     if extra:
-        ev, ec = extra(res, tier)
-        mine.extend(ev)
-        extra_cov.update(ec)
+        parts = extra(res, tier)
+        if isinstance(parts, list):
+            # independent families: run them side by side in forked children
+            import multiprocessing
+
+            global _PARTS
+            _PARTS = parts      # inherited by the forked children (closures do not pickle)
+            pool = multiprocessing.get_context("fork").Pool(min(len(parts), core.NPROC))
+            try:
+                outs = pool.map(_run_part, [(i, tier) for i in range(len(parts))])
+            finally:
+                pool.terminate()
+                pool.join()
+            for out in outs:
+                if "error" in out:
+                    print("INFRASTRUCTURE: %s" % out["error"])
+                    return 2
+                mine.extend(out["viol"])
+                extra_cov.update(out["cov"])
+        else:
+            ev, ec = parts
+            mine.extend(ev)
+            extra_cov.update(ec)
     known = [k for k in core.load_known() if k.get("property") == mod.ID and k.get("status") == "known"]
     hits = {}
     unmatched = []
@@ -85,6 +105,21 @@ def run(mod, tier, all_violations=False, t0=None, extra=None):
         mod.ID, tier, res["states"], res["initial"], res["transitions"], res["max_depth"], res["dense_outcomes"], len(unmatched), others, sum(hits.values()), wall,
         " ".join("%s=%s" % kv for kv in sorted(extra_cov.items()))))
     return code
+
+
+_PARTS = []
+
+
+def _run_part(args):
+    i, tier = args
+    fn = _PARTS[i]
+    try:
+        viol, cov = fn(None, tier)
+        return {"viol": viol, "cov": cov}
+    except Exception:
+        import traceback
+
+        return {"error": traceback.format_exc()}
 
 
 def replay(case):
